@@ -103,11 +103,41 @@ def ScriptSer(inp, tab, ev):
     ev["res"] = res_of(ok, v, B)
 
 
+class ShortReads:
+    """a readable stream that hands out at most `chunk` bytes per read() call (what pipes and sockets do)"""
+
+    def __init__(self, data, chunk):
+        self._d, self._p, self._c = bytes(data), 0, max(1, chunk)
+
+    def read(self, n=-1):
+        if n is None or n < 0:
+            n = len(self._d) - self._p
+        n = min(n, self._c)
+        b = self._d[self._p:self._p + n]
+        self._p += len(b)
+        return b
+
+    def tell(self):
+        return self._p
+
+    def readable(self):
+        return True
+
+
+def _stream_for(inp, ev):
+    """BytesIO for most inputs; for some (a function of the input) a short-reading stream, recorded in the event"""
+    from io import BytesIO
+    f = argform(inp, 5)
+    if f == 0 and len(inp) > 2:
+        ev["stream"] = "short-reads"
+        return ShortReads(bytes(inp), 1 + len(inp) % 3)
+    return BytesIO(bytes(inp))
+
+
 @act
 def ScriptParse(inp, tab, ev):
-    from io import BytesIO
     from btc_hd_wallet.script import Script
-    s = BytesIO(bytes(inp))
+    s = _stream_for(inp, ev)
     ok, v = call(Script.parse, s)
     ev["res"] = res_of(ok, v, lambda sc: {"cmds": cmds_to_json(sc.cmds), "used": s.tell()})
 
@@ -121,9 +151,8 @@ def VarintEnc(inp, tab, ev):
 
 @act
 def VarintRead(inp, tab, ev):
-    from io import BytesIO
     from btc_hd_wallet import helper
-    s = BytesIO(bytes(inp))
+    s = _stream_for(inp, ev)
     ok, v = call(helper.read_varint, s)
     ev["res"] = res_of(ok, v, lambda n: {"val": le_trim(n), "used": s.tell()})
 
@@ -952,6 +981,47 @@ def Watch(inp, tab, ev):
         probe("bip85_data", lambda: wl.bip85_data())
         probe("generate", lambda: wl.generate(0, (0, 1)))
         probe("master-private_key", lambda: wl.master.private_key)
+        # nothing reachable from the watch-only wallet (attributes, nodes, their children, what pickling would
+        # write out) holds the private scalar of the exported node or of a node below it
+        import pickle
+        secrets_ = [bytes(x.private_key)]
+        try:
+            secrets_.append(bytes(x.derive_path(sub).private_key))
+        except Exception:
+            pass
+
+        def reachable(o, depth=0, seen=None):
+            seen = set() if seen is None else seen
+            if id(o) in seen or depth > 6:
+                return []
+            seen.add(id(o))
+            out_ = []
+            if isinstance(o, (bytes, bytearray)):
+                return [bytes(o)]
+            if isinstance(o, str):
+                return [o.encode("utf-8", "replace")]
+            if isinstance(o, int) and not isinstance(o, bool) and o > 2 ** 200:
+                return [o.to_bytes(40, "big")]
+            if isinstance(o, dict):
+                items = list(o.keys()) + list(o.values())
+            elif isinstance(o, (list, tuple, set, frozenset)):
+                items = list(o)
+            else:
+                items = []
+                for name in list(getattr(o, "__dict__", {}) or {}) + [n_ for c_ in type(o).__mro__ for n_ in getattr(c_, "__slots__", ())]:
+                    try:
+                        items.append(getattr(o, name))
+                    except Exception:
+                        pass
+            for it in items:
+                out_ += reachable(it, depth + 1, seen)
+            return out_
+        blobs = reachable(wl) + reachable(n)
+        try:
+            blobs.append(pickle.dumps(wl))
+        except Exception:
+            pass
+        probe("object-graph-holds-private-scalar", lambda: any(sk in b or sk.hex().encode() in b for b in blobs for sk in secrets_), leak_if=bool)
         out["priv"] = priv
         return out
     ok, v = call(go)
